@@ -148,6 +148,8 @@ def ti_content(n):
             for c, t in (("opt", "optional"), ("HA", "addon"), ("extra", "variant"))]
     plats = [["platform", p] for p in ("xen", "efi", "ppc")]
     sums = [["checksum", p, "sha256", hashlib.sha256(p.encode()).hexdigest()] for p in ("docs/README", "images/boot.iso", "docs/readme", "Images/boot.iso")]
+    # a key stored in the table as given (not through add()): another spelling of a path that is there already, with its own value
+    sums = sums[:3] + [["rawsum", "./docs/README", "sha256", hashlib.sha256(b"other").hexdigest()]]
     table = [["image", "x86_64" if n == 0 else "efi", nm, "images/" + nm.lower()] for nm in ("kernel", "Kernel", "initrd", "boot.iso")]
     tables = [["image", p, "vmlinuz", "images/%s/vmlinuz" % p] for p in ("xen", "efi", "ppc")]
     return {"fmt": "ti", "spec": spec, "parts": [tops, kids, plats, sums, table, tables]}
@@ -207,6 +209,8 @@ def build(content, perms):
                 obj.tree.platforms.add(st[1])
             elif st[0] == "checksum":
                 obj.checksums.add(st[1], st[2], st[3])
+            elif st[0] == "rawsum":
+                obj.checksums.checksums[st[1]] = [st[2], st[3]]
             elif st[0] == "image":
                 obj.images.images.setdefault(st[1], {})[st[2]] = st[3]
     if fmt == "ci":
@@ -271,7 +275,24 @@ def eval_repeat(ref):
                 for arch in sorted(obj.extra_files[variant]):
                     obj.dump_for_tree(io.StringIO(), variant, arch, "%s/%s" % (variant[:1], arch[:1]))
         outs.append(TI.dumps(obj) if ref[0] == "ti" else obj.dumps())
-    return {"all_identical": len(set(outs)) == 1}
+    out = {"all_identical": len(set(outs)) == 1}
+    if ref[0] == "ti":
+        # the object that has been dumped is given other content and dumped again: the bytes must be those of a NEW object with
+        # that content (nothing of the earlier dumps - e.g. the old arch in the platform list - may stick to it)
+        content = content_of(ref)
+        for arch in ("aarch64", "ppc64le"):
+            if obj.tree.arch == arch:
+                continue
+            obj.tree.arch = arch
+            again = TI.dumps(obj)
+            c2 = content_of(ref)
+            c2["spec"]["tree"]["arch"] = arch
+            fresh = build(c2, {})[0]
+            fresh.tree.platforms = set(p for p in obj.tree.platforms if p in c2["spec"]["tree"]["platforms"] or
+                                       any(st[0] == "platform" and st[1] == p for part in c2["parts"] for st in part))
+            out["after_arch_change_like_fresh"] = again == TI.dumps(fresh)
+            break
+    return out
 
 
 def _json_paths(node, prefix=()):
@@ -520,6 +541,10 @@ def run_unit(unit, acc):
         acc.ev()
         if not o["all_identical"]:
             acc.violation("repeat:" + fmt, {"kind": "repeat", "ref": ref}, o, "%s content %d: three successive dumps of one object differ" % (fmt, n))
+        elif o.get("after_arch_change_like_fresh") is False:
+            acc.violation("repeat-then-change:" + fmt, {"kind": "repeat", "ref": ref}, o,
+                          "%s content %d: after three dumps the tree arch was changed; the next dump differs from the dump of a new "
+                          "object with the same content" % (fmt, n))
         else:
             acc.outcome("repeat:identical")
         o2 = eval_sparse(ref)
